@@ -2494,11 +2494,232 @@ def forms_bit_exact(ctx: Ctx):
                 ctx.witness("raises", f"{name} raises {type(e).__name__}: {e}", inp)
 
 
+# ---------------------------------------------------------------------------
+# results are VALUES: every mutable object the library hands out (sparse matrices of each format, the transition-amplitude
+# representation, index lists, Trotter lists) is changed in place by the caller, and every later call with equal or related
+# arguments - and every result handed out earlier - must still be right.
+# ---------------------------------------------------------------------------
+SHARED_1Q_KEY = "sparse-export-1qubit-label-is-shared-table"
+
+
+def _mutate_sparse(rng, m):
+    """change the sparse matrix m in place; returns (description, undo) or None when no in-place change could be made"""
+    import operator as pyop
+
+    import numpy as np
+
+    before = m.toarray().copy()
+    fmt = getattr(m, "format", "?")
+    nz = list(zip(*np.nonzero(before)))
+    if not nz:
+        return None
+    if fmt in ("lil", "dok"):
+        r, c = map(int, rng.choice(nz))
+        old = complex(before[r][c])
+        m[r, c] = old + 5
+
+        def undo():
+            m[r, c] = old
+
+        what = f"m[{r},{c}] += 5"
+    else:
+        how = rng.choice(["imul", "data"])
+        done = False
+        if how == "imul":
+            try:
+                res = pyop.imul(m, 2)
+                done = res is m and not np.array_equal(m.toarray(), before)
+                if res is not m and not np.array_equal(m.toarray(), before):
+                    done = True
+            except Exception:  # noqa: BLE001
+                done = False
+            what = "m *= 2"
+        if not done:
+            if not hasattr(m, "data") or not hasattr(m.data, "__imul__"):
+                return None
+            m.data *= 2
+            what = "m.data *= 2"
+
+        def undo():
+            m.data *= 0.5
+
+    if np.array_equal(m.toarray(), before):
+        return None
+    return what, undo
+
+
+def _sparse_tables_ok():
+    """1- and 2-qubit exports of X, Y, Z through the public entry point are right (default format)"""
+    from quri_parts.core.operator import get_sparse_matrix, pauli_label
+
+    try:
+        for p in (1, 2, 3):
+            for ps, n in (([(0, p)], 1), ([(0, p), (1, p)], 2)):
+                arr = get_sparse_matrix(pauli_label(ps), n).toarray()
+                if [[gauss(v) for v in row] for row in arr.tolist()] != ref.op_matrix([(tuple(ps), (1, 0))], n):
+                    return False
+        return True
+    except Exception:  # noqa: BLE001
+        return False
+
+
+def _repair_sparse_tables(ctx: Ctx):
+    """last resort after a detected sharing defect: rebuild the module table so that the rest of the check judges a sane library"""
+    if _sparse_tables_ok():
+        return
+    try:
+        import numpy as np
+        import scipy.sparse as ssp
+
+        import quri_parts.core.operator.sparse as sp
+
+        for k in list(sp._pauli_map):
+            mat = np.array([[complex(*v) for v in row] for row in ref.M1[int(k)]], dtype=np.complex128)
+            sp._pauli_map[k] = ssp.csc_matrix(mat)
+    except Exception as e:  # noqa: BLE001
+        ctx.disagree("forms-result-mutation", {"stage": "repair"}, f"{type(e).__name__}: {e}", "module table can be rebuilt")
+    if not _sparse_tables_ok():
+        ctx.notes.append("sparse Pauli table could not be restored after the sharing test: later export checks run on a corrupted table")
+
+
+def forms_result_mutation(ctx: Ctx):
+    import numpy as np
+
+    from quri_parts.core.operator import Operator, get_sparse_matrix, trotter_suzuki_decomposition
+
+    rng = ctx.rng
+    fmts = ["csc", "csr", "coo", "lil", "dok", "bsr", "dia"]
+
+    def arr_of(m):
+        return [[gauss(v) for v in row] for row in m.toarray().tolist()]
+
+    def export(obj, n, fmt, style):
+        if fmt is None:
+            return get_sparse_matrix(obj, n)
+        return get_sparse_matrix(obj, n, fmt) if style else get_sparse_matrix(obj, n_qubits=n, format=fmt)
+
+    try:
+        for t in range(ctx.n(220, 2500)):
+            pool = [0, 1, 2]
+            ps = rand_valid_pairs(rng, pool)
+            is_op = rng.random() < 0.35
+            need = max([i + 1 for i, _ in ps] + [0])
+            if t % 6 == 0 and not is_op:  # the one-qubit exports of a single Pauli matrix
+                ps, need = [(0, rng.randint(1, 3))], 1
+            n = rng.choice([need, need, need + 1, 3]) if need else rng.choice([1, 2, 3])
+            n = max(n, need, 1)
+            fmt = rng.choice([None, None] + fmts)
+            style = rng.random() < 0.5
+            lab = build_label(rng, ps, rng.choice(ROUTES))
+            coef = rand_coef(rng, False)
+            if is_op:
+                other = [p for p in rand_valid_pairs(rng, pool) if p[0] < n]
+                r = ref.Ref()
+                r.acc(frozenset(ps), coef)
+                r.acc(frozenset(other), rand_coef(rng, False))
+                if not r:
+                    continue
+                obj = Operator()
+                for l, c in r.items():
+                    obj[build_label(rng, sorted(l), rng.choice(ROUTES))] = py_scalar(rng, c)
+                want = _ref_matrix(r, n)
+                desc = f"Operator {_desc(r)}"
+            else:
+                obj, want, desc = lab, ref.op_matrix([(tuple(sorted(ps)), (1, 0))], n), f"label [{enc_pairs(sorted(ps))}]"
+            one_qubit_label = (not is_op) and n == 1 and len(ps) == 1
+            inp = {"object": desc, "n_qubits": n, "format": fmt}
+            ctx.traces += 1
+            ctx.count("result_mutation", ("operator" if is_op else ("label-1q" if one_qubit_label else "label")) + f" {fmt}")
+            try:
+                first = export(obj, n, fmt, style)
+                earlier = export(obj, n, fmt, style)
+                if arr_of(first) != want or arr_of(earlier) != want:
+                    continue  # a wrong export as such is judged elsewhere
+                mu = _mutate_sparse(rng, first)
+                if mu is None:
+                    ctx.count("result_mutation", "no in-place change possible")
+                    continue
+                what, undo = mu
+                inp = dict(inp, caller_edit=f"m = get_sparse_matrix({desc}, {n}{'' if fmt is None else ', ' + repr(fmt)}); {what}")
+                bad = []
+                if arr_of(earlier) != want:
+                    bad.append("a matrix returned by an EARLIER call with the same arguments changed as well")
+                again = export(obj, n, fmt, style)
+                if arr_of(again) != want:
+                    bad.append("the same export called again returns a wrong matrix")
+                # exports that contain the label: an operator with this term, same register / format
+                c2 = rand_coef(rng, False)
+                r2 = ref.Ref()
+                r2.acc(frozenset(ps), c2)
+                o2 = Operator({build_label(rng, ps, rng.choice(ROUTES)): py_scalar(rng, c2)})
+                if ps or n:
+                    got2 = arr_of(export(o2, n, fmt, style))
+                    if got2 != _ref_matrix(r2, n):
+                        bad.append(f"the export of the operator {enc_k(c2)}*[{enc_pairs(sorted(ps))}] is wrong afterwards")
+                # a product label that contains the same single-qubit factors, larger register (same format: see the window note below)
+                if ps and not is_op:
+                    big = sorted(ps) + [(n, rng.randint(1, 3))]
+                    got3 = arr_of(export(build_label(rng, big, "set"), n + 1, fmt, style))
+                    if got3 != ref.op_matrix([(tuple(big), (1, 0))], n + 1):
+                        bad.append(f"the export of [{enc_pairs(big)}] on {n + 1} qubits is wrong afterwards")
+                # (between the caller's edit and its undo only the SAME format is requested: the unchanged tree hands out its own table
+                #  entry for a one-qubit label, and a request in another format would convert the edited entry into new table entries)
+                undo()
+                if bad:
+                    key = SHARED_1Q_KEY if one_qubit_label else "export-result-shared"
+                    ctx.witness(key, "get_sparse_matrix hands out an object it keeps using: after the caller edits the returned matrix in place, "
+                                + "; ".join(bad), inp)
+                    if not _sparse_tables_ok():
+                        _repair_sparse_tables(ctx)
+            except Exception as e:  # noqa: BLE001
+                ctx.witness("raises", f"export raises {type(e).__name__}: {e}", inp)
+                _repair_sparse_tables(ctx)
+    finally:
+        _repair_sparse_tables(ctx)
+
+    # lists handed out by labels and by the Trotter decomposition
+    for _ in range(ctx.n(100, 1000)):
+        ps = rand_valid_pairs(rng, [0, 1, 2, 70])
+        if not ps:
+            continue
+        l = build_label(rng, ps, rng.choice(ROUTES))
+        inp = {"pairs": ps}
+        ctx.traces += 1
+        try:
+            q = l.qubit_indices()
+            il, pl = l.index_and_pauli_id_list
+            for lst in (q, il, pl):
+                if hasattr(lst, "append"):
+                    lst.append(99)
+                    lst[0] = 98
+            q2 = list(l.qubit_indices())
+            il2, pl2 = l.index_and_pauli_id_list
+            if sorted(q2) != sorted(i for i, _ in ps) or sorted(zip(il2, pl2)) != sorted(ps) or canon_label(l) != tuple(sorted(ps)):
+                ctx.witness("label-result-shared", "editing the list returned by qubit_indices() / index_and_pauli_id_list changes later answers", inp)
+            items = {}
+            for _ in range(rng.randint(2, 3)):
+                items[tuple(sorted(rand_valid_pairs(rng, [0, 1])))] = rand_coef(rng, False)
+            op = Operator({build_label(rng, list(k), "set"): complex(*c) for k, c in items.items()})
+            order = rng.choice([1, 2])
+            a = trotter_suzuki_decomposition(op, 0.5, order)
+            ref_a = [(canon_label(e.pauli), e.coefficient) for e in a]
+            earlier = trotter_suzuki_decomposition(op, 0.5, order)
+            a.reverse()
+            del a[: len(a) // 2]
+            a.append(a[0] if a else None)
+            b = trotter_suzuki_decomposition(op, 0.5, order)
+            if [(canon_label(e.pauli), e.coefficient) for e in b] != ref_a or [(canon_label(e.pauli), e.coefficient) for e in earlier] != ref_a:
+                ctx.witness("trotter-result-shared", "editing the list returned by trotter_suzuki_decomposition changes later / earlier results",
+                            {"op": enc_items([(list(k), c) for k, c in items.items()]), "order": order})
+        except Exception as e:  # noqa: BLE001
+            ctx.witness("raises", f"{type(e).__name__}: {e}", inp)
+
+
 def check_forms(ctx: Ctx):
     for name, fn in [("operands", forms_operands), ("errors", forms_errors), ("accessors", forms_accessors), ("predicates", forms_predicates),
                      ("operator_str", forms_operator_str), ("commute", forms_commute), ("fresh_results", forms_fresh_results),
                      ("histories", forms_histories), ("big_register", forms_big_register), ("trotter", forms_trotter),
-                     ("exact_range", forms_exact_range), ("bit_exact", forms_bit_exact)]:
+                     ("exact_range", forms_exact_range), ("bit_exact", forms_bit_exact), ("result_mutation", forms_result_mutation)]:
         _section(ctx, name, fn)
 
 
